@@ -74,7 +74,7 @@ fn arb_dbop() -> BoxedStrategy<DbOp> {
 pub fn arb_db_case() -> BoxedStrategy<DbCase> {
     let step = prop_oneof![
         3 => vec(arb_dbop(), 1..8).prop_map(Step::Transaction),
-        3 => (arb_t(), prop_oneof![4 => 0u16..4, 2 => 65530u16..=65535, 1 => any::<u16>()], 1u16..6).prop_map(|(t, s, c)| Step::ClientRead(t, s, c)),
+        3 => (arb_t(), prop_oneof![4 => 0u16..4, 2 => 65530u16..=65535, 1 => any::<u16>()], prop_oneof![4 => 1u16..6, 1 => 6u16..20, 1 => prop::sample::select(vec![8u16, 9, 16, 17, 24])]).prop_map(|(t, s, c)| Step::ClientRead(t, s, c)),
     ];
     (vec(arb_dbop(), 0..12), vec(step, 1..14), prop::bool::weighted(0.4), any::<u16>())
         .prop_map(|(mut configure, steps, prefill, v)| {
@@ -83,7 +83,8 @@ pub fn arb_db_case() -> BoxedStrategy<DbCase> {
             if prefill {
                 let mut pre = Vec::new();
                 for t in [T::Coil, T::Discrete, T::Holding, T::Input] {
-                    for i in [0u16, 1, 2, 3, 65532, 65533, 65534, 65535] {
+                    // (0..=24 without 5 and 13: long reads from 0 meet a hole inside a full byte)
+                    for i in (0u16..=24).filter(|i| *i != 5 && *i != 13).chain([65532u16, 65533, 65534, 65535]) {
                         pre.push(DbOp::Add(t, i, v.wrapping_mul(i | 1).wrapping_add(i)));
                     }
                 }
